@@ -95,6 +95,46 @@ def _run(rec):
     return out
 
 
+def _run_fam(rec):
+    """class-level discriminator + hooks: Base.from_dict / codec / list codec / holder field all dispatch to the variant once"""
+    import typing
+    from harness.real import BasicDecoder, abstract_exception
+    from harness.terms import Registry, abstract_value, concretize_type, concretize_value
+    from harness.core import norm_err
+    _, base, variants, inp, exp_res, exp_trace = rec
+    out = {"n": 0, "mism": []}
+    exp_t = [list(e)[:3] + [False] for e in exp_trace]
+    for entry in ("from_dict", "from_dict again", "codec", "list codec"):
+        reg = Registry()
+        try:
+            B = concretize_type(base, reg)
+            for V in variants:
+                concretize_type(V, reg)
+            d = concretize_value(inp, reg)
+            if entry == "from_dict again":
+                B.from_dict(d)                     # the first call fills the variant registry; the second must behave the same
+            reg.hook_log.clear()
+            out["n"] += 1
+            try:
+                if entry.startswith("from_dict"):
+                    res = ["ok", abstract_value(B.from_dict(d), reg)]
+                elif entry == "codec":
+                    res = ["ok", abstract_value(BasicDecoder(B).decode(d), reg)]
+                else:
+                    res = ["ok", abstract_value(BasicDecoder(typing.List[B]).decode([d])[0], reg)]
+            except Exception as e:  # noqa: BLE001
+                res = norm_err(abstract_exception(e, reg))
+            log = [list(e) for e in reg.hook_log]
+            T = ["discrfam", base, variants]
+            if not terms_equal(res, norm_err(exp_res)):
+                out["mism"].append({"clause": "hook-result", "T": T, "direction": "deser", "input": inp, "expected": exp_res, "actual": res, "entry": entry})
+            if not _is_sub(exp_t, log):
+                out["mism"].append({"clause": "hook-trace", "T": T, "direction": "deser", "input": inp, "expected": exp_t, "actual": log, "entry": entry})
+        finally:
+            reg.close()
+    return out
+
+
 def _drop_none(w):
     if isinstance(w, list) and w and w[0] == "dict":
         return ["dict", [[k, _drop_none(x)] for k, x in w[1] if x != ["none"]]]
@@ -144,6 +184,15 @@ def run(prop, tier, seed):
             rep.cov["traces_validated_against_impl"] += out["n"]
             for m in out["mism"]:
                 rep.violation(m["clause"], {**m, "channel": "R", "replay_module": "harness.checks.c19"})
+    fams = [p for p in r.printed if p[0] == "hookd"]
+    for p in fams:
+        out = _run_fam(p)
+        rep.count(out["n"])
+        rep.cov["traces_validated_against_impl"] += out["n"]
+        for m in out["mism"]:
+            rep.violation(m["clause"], {**m, "channel": "R", "replay_module": "harness.checks.c19", "fam": p})
+        if len(p[5]) >= 1:
+            rep.nontrivial(hashlib.sha1(jkey(p[1:4]).encode()).hexdigest())
     for p in recs:
         if len(p[5]) >= 2:
             rep.nontrivial(hashlib.sha1(jkey(p[1:4]).encode()).hexdigest())
@@ -159,6 +208,15 @@ def run(prop, tier, seed):
 def replay(rec, path):
     """re-run the recorded vector through the recorded entry point; the expectations are stored in the record"""
     global FORMATS
+    if rec.get("fam"):
+        out = _run_fam(rec["fam"])
+        hit = [m for m in out["mism"] if m["clause"] == rec["clause"] and m["entry"] == rec.get("entry")]
+        if hit:
+            print("observed now:", json.dumps(hit[0]["actual"])[:600])
+            print(f"VIOLATION property=C19 replay={path}")
+            return 1
+        print("no longer reproduces on the current tree")
+        return 0
     T = with_mixin(rec["T"], "dict")
     exp_res = rec["expected"] if rec["clause"] == "hook-result" else None
     exp_trace = rec["expected"] if rec["clause"] == "hook-trace" else []
